@@ -71,8 +71,26 @@ def generate(prop, seed, tier='quick', sub='crash'):
     if kind in ('add_pack', 'import') and rng.random() < 0.5:
         config['pack_size_target'] = rng.choice([1, 50, 500])
     thorough = tier == 'thorough'
+    followups = None
+    if sub == 'restart':
+        # C13 is about repack-free histories: no repack before, in, or after the interrupted operation
+        pre_ops = [op for op in pre_ops if op['op'] not in ('repack', 'repack_pack')]
+        if kind in ('repack', 'repack_pack', 'loosen', 'delete'):
+            kind = rng.choice(['add_pack', 'pack_loose', 'add_pack', 'import'])
+            victim = gen.gen_op(rng, kind, len(pool), vopts)
+            victim.pop('from_key', None)
+        config['pack_size_target'] = rng.choice([50, 500, 3000, 20000])
+        followups = []
+        for _ in range(rng.randint(2, 4)):
+            fop = gen.gen_op(rng, rng.choice(['add_pack', 'add_pack', 'pack_loose', 'add_loose', 'clean']), len(pool), vopts)
+            fop.pop('from_key', None)
+            fop.setdefault('c', rng.randrange(len(pool)))
+            followups.append(fop)
+    if kind == 'add_pack' and rng.random() < (0.04 if sub != 'restart' else 0.0):
+        # a batch that crosses the library's 1000-row paging / flushing granularity in one call
+        victim['mass'] = 1000 + rng.randint(0, 60)
     pending = None
-    if sub != 'fault' and rng.random() < 0.15:
+    if sub != 'fault' and not victim.get('mass') and rng.random() < 0.15:
         # the victim's handle holds index rows written with do_commit=False (still uncommitted); prefer contents that
         # are already stored (loose) - they must survive whatever the victim and the crash do
         loose_cs = [op['c'] for op in pre_ops if op['op'] == 'add_loose' and 'c' in op and op.get('t', 'c') == 'c']
@@ -99,7 +117,8 @@ def generate(prop, seed, tier='quick', sub='crash'):
         # C06 variant: the n-th fsync of the victim fails
         'fsync_fault': rng.randint(1, 4) if sub == 'powerloss' and rng.random() < 0.25 else None,
         # the victim's handle holds index rows written with do_commit=False (still uncommitted)
-        'pending_add': pending,
+        'pending_add': pending if sub != 'restart' else None,
+        'followups': followups,
     }
 
 
@@ -119,6 +138,9 @@ def expectations(world, side, victim):
     elif name == 'add_pack':
         for cidx in victim['cs']:
             data = world.content(cidx)
+            maybe[hkey(side.hash_type, data)] = data
+        for i in range(victim.get('mass', 0)):
+            data = b'mass-%d-%d' % (victim.get('seed', 0), i)
             maybe[hkey(side.hash_type, data)] = data
     elif name == 'delete':
         for j in victim.get('keys', []):
@@ -168,8 +190,13 @@ def image_oracle(lib, folder, pre, maybe, victim_name, label):  # pylint: disabl
                     raise Violation('image:wrong-bytes-raw', f'{label}: key={key[:12]} loose file differs')
     repack_rows = any(r['pack_id'] == -1 for r in state.rows)
     cont = lib.Container(folder)
+    through_handle = list(known.items())
+    if len(through_handle) > 300:
+        # mass batches: every visible row was already checked raw above; through a handle read a spread of 300 keys
+        step = len(through_handle) // 300 + 1
+        through_handle = through_handle[::step] + through_handle[-20:]
     try:
-        for key, data in known.items():
+        for key, data in through_handle:
             try:
                 got = cont.get_object_content(key)
             except NotExistent:
@@ -211,13 +238,14 @@ def state_digest(state):
 class Recorder:
     """Hook: copies the container folder before every mutating seam call of the victim."""
 
-    def __init__(self, folder, imgdir, powerloss, cap=600):
+    def __init__(self, folder, imgdir, powerloss, cap=600, only=None):
         self.folder = folder
         self.imgdir = imgdir
         self.powerloss = powerloss
         self.images = []  # (k, kind, rel, path)
         self.count = 0
         self.cap = cap
+        self.only = only  # long victims: boundaries chosen beforehand from a preview execution (no cap then)
         os.makedirs(imgdir, exist_ok=True)
 
     def __call__(self, event):
@@ -230,7 +258,10 @@ class Recorder:
     def take(self, kind, rel):
         k = self.count
         self.count += 1
-        if k >= self.cap:
+        if self.only is not None:
+            if k not in self.only and kind != 'end':
+                return
+        elif k >= self.cap:
             return
         dst = os.path.join(self.imgdir, str(k))
         shutil.copytree(self.folder, dst)
@@ -408,6 +439,8 @@ def execute(case):  # pylint: disable=too-many-locals,too-many-branches,too-many
                             maybe[key] = data
                 if sub in ('crash', 'powerloss'):
                     evals, behaviours = run_recorded(lib, world, side, case, pre, maybe, rng, probes, faults)
+                elif sub == 'restart':
+                    evals, behaviours = run_restart(lib, world, side, case, pre, maybe, rng, probes, faults)
                 else:
                     evals, behaviours = run_faulted(lib, world, side, case, pre, maybe, rng, probes, faults)
             except Violation as exc:
@@ -458,7 +491,12 @@ def pick_positions(case, total, rng, nsample, kinds=None):
         for pos, kind in enumerate(kinds):
             by_kind.setdefault(kind.split(':')[0] if kind.startswith('open') else kind, []).append(pos)
         for kind in sorted(by_kind):
-            picks.add(rng.choice(by_kind[kind]))
+            occ = by_kind[kind]
+            chosen = occ if len(occ) <= 3 else [rng.choice(occ)]
+            for pos in chosen:
+                picks.add(pos)
+                if pos + 1 < total:
+                    picks.add(pos + 1)  # the state right *after* a rare call (a commit, a rename, ...) as well
     while len(picks) < nsample:
         picks.add(rng.randrange(total))
     return sorted(picks)
@@ -469,7 +507,34 @@ def run_recorded(lib, world, side, case, pre, maybe, rng, probes, faults):
     victim = case['victim']
     powerloss = case['sub'] == 'powerloss'
     imgdir = os.path.join(world.root, 'img')
-    recorder = Recorder(side.folder, imgdir, powerloss)
+    only = None
+    if victim.get('mass'):
+        # thousands of boundaries: a preview execution on a copy enumerates them, the sample is chosen beforehand and
+        # only those images are taken (both executions start from the same simulator state on a fresh handle)
+        world.close_all()
+        copy = os.path.join(world.root, 'preview', 'c')
+        os.makedirs(os.path.dirname(copy))
+        shutil.copytree(side.folder, copy)
+        preview = World(world.root, case, None)
+        preview.adopt_side('c', copy, case['config'], side.model)
+        if world.sides.get('b') is not None:
+            preview.adopt_side('b', world.sides['b'].folder, case['config_b'], world.sides['b'].model)
+        SIM.fs_rng = random.Random(case['seed'] + 4242)
+        SIM.uuid_counter = 1_000_000
+        counter = Counter()
+        SIM.hooks.append(counter)
+        try:
+            preview.step(victim)
+        finally:
+            SIM.hooks.remove(counter)
+            preview.close_all()
+            shutil.rmtree(os.path.join(world.root, 'preview'), ignore_errors=True)
+        kinds = [kind for kind, _, mut in counter.events if mut] + ['end']
+        only = set(pick_positions(case, len(kinds), rng, max(case.get('nsample', 16), 24), kinds=kinds))
+        side.handles = [lib.Container(side.folder)]
+        SIM.fs_rng = random.Random(case['seed'] + 4242)
+        SIM.uuid_counter = 1_000_000
+    recorder = Recorder(side.folder, imgdir, powerloss, only=only)
     if powerloss:
         SIM.ledger = init_ledger(side.folder)
     SIM.hooks.append(recorder)
@@ -530,13 +595,13 @@ def run_recorded(lib, world, side, case, pre, maybe, rng, probes, faults):
     evals = 0
     kind_name = 'powerloss' if powerloss else 'crash'
     with SIM.quiet():
-        for k, kind, rel, path in recorder.images:
-            if k in picks:
+        for i, (k, kind, rel, path) in enumerate(recorder.images):
+            if only is not None or i in picks:
                 label = f'{kind_name}@{k} before {kind} {rel} (victim {victim["op"]})'
                 state = image_oracle(lib, path, pre, maybe, victim['op'], label)
                 evals += 1
                 faults[kind_name] = faults.get(kind_name, 0) + 1
-                if 0 < k < total - 1:
+                if 0 < i < total - 1:
                     behaviours.add(f"{victim['op']}|{kind.split(':')[0] if kind.startswith('open') else kind}|{state_digest(state)}")
             shutil.rmtree(path, ignore_errors=True)
     SIM.ledger = None
@@ -721,6 +786,71 @@ def run_faulted(lib, world, side, case, pre, maybe, rng, probes, faults):  # pyl
                 probes['rerun_ok'] += 1
                 rerun.close_all()
         shutil.rmtree(os.path.join(world.root, tag), ignore_errors=True)
+    return evals, behaviours
+
+
+def run_restart(lib, world, side, case, pre, maybe, rng, probes, faults):  # pylint: disable=too-many-locals
+    """C13 across a crash: the process is killed inside the victim, a new process opens the folder and goes on with
+    ordinary (repack-free) operations. The pack layout rules must keep holding in that continued history: referenced
+    bytes never change, ids stay consecutive, every pack but the highest has reached the target. A stale lock left by
+    the killed process may make the first pack-writing call fail loudly once (it is released on the way out)."""
+    from .oracles import Oracle  # pylint: disable=import-outside-toplevel
+
+    victim = case['victim']
+    recorder = Recorder(side.folder, os.path.join(world.root, 'img'), False)
+    SIM.hooks.append(recorder)
+    try:
+        world.step_index = len(case['ops'])
+        world.step(victim)
+    finally:
+        SIM.hooks.remove(recorder)
+    recorder.take('end', '')
+    total = len(recorder.images)
+    probes['boundaries'] += total
+    picks = set(pick_positions(dict(case, positions='sample'), total, rng, case.get('nrestart', 3), kinds=[img[1] for img in recorder.images]))
+    if case.get('positions') and isinstance(case['positions'], list):
+        picks = set(case['positions'])
+    behaviours = set()
+    evals = 0
+    bside = world.sides.get('b')
+    for k, kind, rel, path in recorder.images:
+        if k not in picks:
+            shutil.rmtree(path, ignore_errors=True)
+            continue
+        label = f'restart after crash@{k} before {kind} {rel} (victim {victim["op"]})'
+        with SIM.quiet():
+            image_oracle(lib, path, pre, maybe, victim['op'], label)
+            _, observed = rawread.verify(path, model=None)
+        model = dict(pre)
+        for key, data in maybe.items():
+            if key in observed:
+                model[key] = data
+        oracle = Oracle(['monotone', 'raw', 'views'], seed=case['seed'] + k, light_views=True)
+        cont = World(world.root, case, oracle)
+        cont.adopt_side('c', path, case['config'], model)
+        if bside is not None:
+            cont.adopt_side('b', bside.folder, case['config_b'], bside.model)
+        stale = [n for n in os.listdir(os.path.join(path, 'packs')) if n.endswith('.lock')]
+        probes['restart_images_with_stale_lock'] = probes.get('restart_images_with_stale_lock', 0) + bool(stale)
+        try:
+            for num, op in enumerate(case['followups']):
+                cont.step_index = len(case['ops']) + 1 + num
+                try:
+                    cont.step(op)
+                except FileExistsError:
+                    # the lock of the killed process: the failed attempt releases it, the caller tries again
+                    probes['restart_lock_refusals'] = probes.get('restart_lock_refusals', 0) + 1
+                    cont.sides['c'].handles[0].close()
+                    cont.sides['c'].handles[0] = lib.Container(path)
+                    cont.step(op)
+        except Violation as exc:
+            raise Violation('restart:' + exc.klass, f'{label}, then {[o["op"] for o in case["followups"]]}: {exc.detail}') from None
+        finally:
+            cont.close_all()
+        evals += 1
+        faults['crash'] = faults.get('crash', 0) + 1
+        behaviours.add(f"restart|{victim['op']}|{kind.split(':')[0] if kind.startswith('open') else kind}|{bool(stale)}|{case['seed']}")
+        shutil.rmtree(path, ignore_errors=True)
     return evals, behaviours
 
 
